@@ -496,6 +496,10 @@ def _(tier, seed):
                     objs[num] = rng.choice([r * 100 + num, [r, num], {"V": r * 100 + num}, "s%d-%d" % (r, num)])
                 pack = [n for n in objs if n > 2 and rng.random() < 0.5]
                 wshape = rng.choice([(1, 2, 1), (1, 3, 2), (1, 4, 1)])
+                if form == "stream" and rng.random() < 0.35:
+                    # ISO 7.5.8.2: a type field of width 0 means type 1 for every entry (no object-stream members in such a section)
+                    pack = []
+                    wshape = rng.choice([(0, 3, 1), (0, 2, 0), (0, 4, 2)])
                 w.revision(objs, 1, form=form, pack=pack, w=wshape, info=2, compress=rng.random() < 0.5)
                 view.update(objs)
             data = w.getvalue()
